@@ -244,6 +244,57 @@ def canonicalise_fields(adts, bodies):
     return made
 
 
+# Const generic parameters of the public table-flag methods, by position (the trait fixes their order; an impl may name them as it
+# likes): method name -> canonical names of its trailing const parameters.
+CONST_GENERICS = {
+    "read_gamma_param": ["USE_TABLE"], "write_gamma_param": ["USE_TABLE"], "len_gamma_param": ["USE_TABLE"],
+    "read_delta_param": ["USE_DELTA_TABLE", "USE_GAMMA_TABLE"], "write_delta_param": ["USE_DELTA_TABLE", "USE_GAMMA_TABLE"],
+    "len_delta_param": ["USE_DELTA_TABLE", "USE_GAMMA_TABLE"],
+    "read_zeta3_param": ["USE_TABLE"], "write_zeta3_param": ["USE_TABLE"], "write_zeta_param": ["USE_TABLE"], "len_zeta_param": ["USE_TABLE"],
+}
+
+
+def canonicalise_const_generics(bodies):
+    made = {}
+    maps = {}
+    for b in bodies:
+        nm = b["path"].split("::")[-1]
+        canon = CONST_GENERICS.get(nm)
+        gens = b.get("generics") or []
+        if not canon or b["kind"] not in ("AssocFn", "Fn") or len(gens) < len(canon):
+            continue
+        tail = gens[len(gens) - len(canon):]
+        ren = {a: c for a, c in zip(tail, canon) if a != c}
+        if ren and not (set(ren.values()) & (set(gens) - set(tail))):
+            maps[b["path"]] = ren
+    if not maps:
+        return made
+
+    def walk(o, ren):
+        if isinstance(o, dict):
+            if o.get("k") == "const" and o.get("param") in ren:
+                o["param"] = ren[o["param"]]
+            if isinstance(o.get("fn_args"), list):
+                o["fn_args"] = [ren.get(a, a) for a in o["fn_args"]]
+            for v in o.values():
+                walk(v, ren)
+        elif isinstance(o, list):
+            for v in o:
+                walk(v, ren)
+    for b in bodies:
+        ren = maps.get(b["path"])
+        if ren is None:
+            for p, r in maps.items():
+                if b["path"].startswith(p + "::"):      # closures and items nested in the method
+                    ren = r
+        if ren is None:
+            continue
+        b["generics"] = [ren.get(g, g) for g in (b.get("generics") or [])]
+        walk(b.get("blocks") or [], ren)
+        made[b["path"]] = ren
+    return made
+
+
 class Facts:
     def __init__(self, path, fs):
         with open(path) as f:
@@ -256,6 +307,7 @@ class Facts:
         self.consts = {c["path"]: c for c in d["consts"]}
         self.bodies = d["bodies"]
         self.field_renames = canonicalise_fields(self.adts, self.bodies)
+        self.generic_renames = canonicalise_const_generics(self.bodies)
         self.by_path = {}
         for b in self.bodies:
             if b["kind"] == "Promoted":
